@@ -185,7 +185,8 @@ def translate(ctx, chk, ref):
                 stored = []
 
                 def ehook(c, ev, stored=stored):
-                    if ev[0] == 'map.insert' and len(ev) > 3 and isinstance(ev[3], StructV) and ev[3].ty.endswith('CharOpts') and c.fr is not None and c.fr.func in scope:
+                    if ev[0] == 'map.insert' and len(ev) > 3 and isinstance(ev[3], StructV) and ev[3].ty.endswith('CharOpts') and c.fr is not None and c.fr.func in scope \
+                            and g.own_stack(prog, c.st.stack, draw):
                         if c.st.vn.get('ins-absent') and g.is_default_char(c.eng, c.st, ev[3])[0]:
                             return      # an absent cell materialised with the blank it stands for: nothing is drawn
                         d = ev[3].fields.get('data')
